@@ -136,6 +136,23 @@ def run(case):
                 for sub in {t, t.split(":")[-1], t.split(".")[-1], t[-3:]}:
                     if sum(sub in t2 for t2 in ptypes) == 1:
                         cands.append((sub, i))
+            # a string that matches several world axes (of different types, or the same type twice - two Time
+            # extra coords are both "time") does not name a coordinate: it must be refused
+            ambiguous = sorted({sub for t in ptypes for sub in {t, t.split(":")[-1], t.split(".")[0], t[:3], t[-2:]}
+                                if sub and sum(sub in t2 for t2 in ptypes) >= 2})
+            if ambiguous and case["wseed"] % 3 == 0:
+                sub = ambiguous[case["wseed"] % len(ambiguous)]
+                tags.append("ambiguous-string")
+                method = cube.axis_world_coords_values if case["form"] == "values" else cube.axis_world_coords
+                try:
+                    r = method(sub, pixel_corners=case["corners"], wcs=None if which == "wcs" else getattr(cube, which))
+                    fails.append(f"axes string {sub!r} matches {[t for t in ptypes if sub in t]} but was accepted and returned {len(r)} coordinate(s)")
+                except ValueError:
+                    pass
+                except Exception as e:
+                    fails.append(f"ambiguous axes string {sub!r} raised {type(e).__name__} instead of ValueError")
+                res["nontrivial"] = repr(sorted(case.items(), key=str))
+                raise StopIteration
             if not cands:
                 return res
             picks = rng.sample(cands, min(len(cands), rng.randint(1, 2)))
